@@ -32,6 +32,14 @@ def Op.isEqualsSpecial : Op → Bool
   | .equals false false => true
   | _ => false
 
+/-- the exact-offset shortcut of `next_textselection`: plain equality, and equality with the `all` modifier when there
+is one reference (for a single reference `all` changes nothing) -/
+def specialFor (op : Op) (refset : TSet) : Bool :=
+  match op with
+  | .equals false false => true
+  | .equals true false => refset.items.length == 1
+  | _ => false
+
 /-- `init_textseliters`: the range and direction chosen for operator and reference set;
 `n` is the text length -/
 def plan (op : Op) (refset : TSet) (n : Nat) : Nat × Nat × Dir :=
@@ -60,7 +68,7 @@ def equalsSpecial (refset : TSet) (sels : List TSel) : List TSel :=
 
 /-- `FindTextSelectionsIter` run to completion. `BTreeMap::range` panics on an inverted range. -/
 def find (op : Op) (refset : TSet) (sels : List TSel) (res : Res) : Out (List TSel) :=
-  if op.isEqualsSpecial then .ok (equalsSpecial refset sels)
+  if specialFor op refset then .ok (equalsSpecial refset sels)
   else
     let p := plan op refset res.len
     if p.1 > p.2.1 then .panic "range start is greater than range end in BTreeMap"
